@@ -8,7 +8,7 @@ from hypothesis import strategies as st
 
 from .. import formula as F
 from ..common import feature_labels
-from ..dense import (DENSE_PAST, DENSE, ct_cases, case_q, to_time, norm_signals, dense_text, check_shape, ct_candidates)
+from ..dense import (DENSE_PAST, DENSE, QUANTA, ct_cases, case_q, to_time, norm_signals, dense_text, check_shape, ct_candidates)
 from ..formula import from_json
 from ..monitors import build, exc_outcome, run_ct_off
 from ..refsem import ct_cells, Undefined, needs_tolerance, same, step_at
@@ -19,7 +19,7 @@ PROPERTY = 'C05'
 RULE = ('Dense-time past fragment (once/historically/since bounded and unbounded, Boolean, arithmetic, predicates) and a pastified lane '
         '(bounded eventually/always, pastify() first) on grid signals of up to 6 samples per variable; a schedule cuts the input into '
         'successive update() calls: all at once, one sample per update, random common cut instants, and per-variable independent cuts '
-        '(one operand runs ahead); lanes for unbounded operators under arbitrary schedules, bounded / pastified operators in one update and in several updates; for one-variable cases with <= 5 samples ALL 2^(n-1) schedules are enumerated for a fixed family of 12 formulas. Oracle: (i) every '
+        '(one operand runs ahead); lanes for unbounded operators under arbitrary schedules, bounded / pastified operators in one update and in several updates; for one-variable cases with <= 5 samples ALL 2^(n-1) schedules are enumerated for a fixed family of 12 formulas; lane skewed: 34-70 samples per variable, one variable delivered completely (or in one update) before the others, so that two-operand nodes keep a long backlog. Oracle: (i) every '
         'returned element is a [time, value] pair with finite time and the concatenation has non-decreasing time stamps; (ii) read as a '
         'step function it equals the grid reference R-ct (shifted by the horizon after pastify) at every cell start / midpoint it '
         'covers; (iii) two schedules of the same case agree wherever both cover. Non-trivial = >= 2 update calls, non-empty output and '
@@ -141,6 +141,16 @@ def batches_of(case, sig_t, q):
         return [sig_t]
     if kind in ('common', 'single'):
         return split_common(sig_t, [float(k * q) for k in case.get('cuts', [])])
+    if kind == 'sequential':
+        # one variable after the other: the whole signal of a variable (in pieces of `piece` samples) before the next one
+        out = []
+        for v in case['order']:
+            if v not in sig_t:
+                continue
+            xs = sig_t[v]
+            for i in range(0, len(xs), case['piece']):
+                out.append({u: (xs[i:i + case['piece']] if u == v else []) for u in sig_t})
+        return out
     return split_independent(sig_t, case.get('masks', {}))
 
 
@@ -314,6 +324,49 @@ def long_cases(tier):
     return mk()
 
 
+def skewed_cases(tier):
+    """34-70 samples per variable and a delivery in which one variable runs far ahead of the others (the whole signal of one
+    variable before the first sample of the next, or one variable in a single update and the others in pieces): operators
+    with two operands have to keep a long backlog of the operand that is ahead."""
+    from hypothesis import strategies as st2
+
+    @st2.composite
+    def mk(draw):
+        prof = DENSE_PAST.copy(max_bound=6, max_depth=2, nvars=2)
+        f, vs = draw(F.formulas(prof))
+        vs = list(vs)
+        if len(vs) < 2:
+            vs = vs + [v for v in F.VAR_POOL if v not in vs][:1]
+        if draw(st2.integers(0, 2)) > 0:
+            # make sure two different variables meet in one node
+            cmp_ = ('pred', draw(st2.sampled_from(['>=', '<=', '>', '<'])), ('var', vs[0]), ('var', vs[1]))
+            g = draw(st2.sampled_from([cmp_, ('un', 'once', cmp_), ('un', 'historically', cmp_), ('tun', 'once', 0, 3, cmp_)]))
+            f = draw(st2.sampled_from([g, ('bin', 'and', f, g), ('bin', 'or', g, f), ('bin', 'since', f, g)]))
+        q = draw(st2.sampled_from(QUANTA[tier]))
+        sig = {}
+        for v in vs:
+            n = draw(st2.integers(34, 70))
+            vals = draw(st2.lists(st2.sampled_from([0.0, 1.0, -1.0, 2.0, 5.0, -3.0, 0.5]), min_size=n, max_size=n))
+            gaps = draw(st2.lists(st2.sampled_from([1, 1, 1, 2, 3]), min_size=n, max_size=n))
+            k = 0
+            s = []
+            for x, g_ in zip(vals, gaps):
+                s.append([k, x])
+                k += g_
+            sig[v] = s
+        c = {'formula': f, 'vars': vs, 'signals': sig, 'q': [q.numerator, q.denominator], 'pastified': False}
+        if draw(st2.booleans()):
+            c['schedule'] = 'sequential'
+            c['order'] = list(draw(st2.permutations(vs)))
+            c['piece'] = draw(st2.sampled_from([1000, 1000, 10, 7, 25]))
+        else:
+            c['schedule'] = 'independent'
+            ahead = draw(st2.sampled_from(vs))
+            c['masks'] = {v: ([0] * 70 if v == ahead else draw(st2.lists(st2.sampled_from([0, 0, 0, 0, 0, 1]), min_size=70, max_size=70))) for v in vs}
+        return c
+    return mk()
+
+
 def near_twin_cases(tier):
     """g JOIN g' with g' one label away from g (operators and cached values are keyed by printed name)."""
     from hypothesis import strategies as st2
@@ -335,6 +388,7 @@ def near_twin_cases(tier):
 LANES = [
     Lane('near_twins', near_twin_cases, check, 1200, 15000, candidates),
     Lane('long_chunked', long_cases, check, 600, 8000, candidates),
+    Lane('skewed', skewed_cases, check, 800, 10000, candidates),
     Lane('unbounded_chunked', lambda tier: cases(tier, False, bounded=False), check, 3000, 40000, candidates),
     Lane('bounded_whole', lambda tier: cases(tier, False, chunked=False), check, 1500, 20000, candidates),
     Lane('pastified_whole', lambda tier: cases(tier, True, chunked=False), check, 1000, 15000, candidates),
